@@ -46,12 +46,13 @@ def _work(args):
         exits = [ob for ob in eng.obligations if ob.path_kind in ('return', 'raise', 'table', 'lemma')] if sl == 0 else []
         seen_pc = set()
         feasible = None
-        for ob in exits:
-            key_pc = len(ob.pc), id(ob.pc[-1]) if ob.pc else 0
-            r = eng.feasible(ob.pc, 3000)
+        pcs = eng.exit_pcs if (eng.exit_pcs is not None and sl == 0) else [ob.pc for ob in exits]
+        for pc in pcs:
+            r = eng.feasible(pc, 3000)
             if r != 'unsat':
                 feasible = r
                 break
+        exits = pcs
         res['vacuity'] = 'ok' if (feasible or not exits) else 'ALL-EXIT-PATHS-INFEASIBLE'
         res['obligations'] = [o for o in res['obligations']]
     except OutOfSubset as e:
